@@ -245,6 +245,34 @@ func corpus(t *tr.Trace, r *tr.Rand) {
 		h.leave(m, 2)
 		h.quiesce()
 	})
+	// A request is made IN a group: it does not survive leaving it.  A client
+	// that asked for everything in group 1, left, and joined group 2 (or group
+	// 1 again) without asking for anything there is offered nothing, whatever
+	// is published or pushed again around it.
+	corpusRun(t, r, "corpus-request-ends-with-membership", 4, func(h *hist) {
+		p, m, q, n := h.cs[0], h.cs[1], h.cs[2], h.cs[3]
+		h.join(p, 1, 1)
+		h.join(q, 2, 9)
+		h.join(m, 1, 4)
+		h.join(n, 2, 12)
+		h.reqDefault(m, av)
+		h.reqDefault(n, av)
+		h.quiesce()
+		h.establish(p, 1, 0, 0, av)
+		h.quiesce()
+		h.leave(m, 1)
+		h.join(m, 2, 4) // no request in group 2
+		h.quiesce()
+		h.establish(q, 2, 0, 0, av) // a new stream in group 2
+		h.quiesce()
+		h.reqDefault(n, []string{"audio"}) // q pushes again for n
+		h.quiesce()
+		h.leave(m, 2)
+		h.join(m, 1, 4) // back in group 1, again without a request
+		h.quiesce()
+		h.establish(p, 3, 0, 0, av)
+		h.quiesce()
+	})
 	// Teardown reaches everybody: close, unpresent, kick, leave, disconnect.
 	corpusRun(t, r, "corpus-teardown", 5, func(h *hist) {
 		a, b, c, m, o := h.cs[0], h.cs[1], h.cs[2], h.cs[3], h.cs[4]
